@@ -9,7 +9,7 @@
                      via one route and looked up via another) run on real SRFI 69 and SRFI 125 tables
                      (harness/scm/c15_map.scm) and are validated by TLC with MapTrace.tla.
    Python generates cases, runs the tools and converts formats; every verdict is TLC's."""
-import json, os, random, re, subprocess, sys, threading, time
+import collections, json, os, random, re, subprocess, sys, threading, time
 import vlib
 from vlib import Broken
 import c15terms
@@ -98,13 +98,21 @@ def run_chibi(build, prog_path, out_path, timeout):
 
 
 def assemble(trace_path, term_evs, out_path, rc):
+    """Term declarations + what the driver wrote + Exit.  A line that is not a JSON object with an "e" field
+    (the process died while writing) becomes a Garbled event, for which no trace specification has an action."""
     with open(trace_path, "w") as f:
         for ev in term_evs:
             f.write(json.dumps(ev, separators=(",", ":")) + "\n")
         with open(out_path, errors="replace") as o:
             for line in o:
-                if line.strip():
-                    f.write(line if line.endswith("\n") else line + "\n")
+                line = line.strip()
+                if not line:
+                    continue
+                try:
+                    ok = isinstance(json.loads(line).get("e"), str)
+                except (ValueError, AttributeError):
+                    ok = False
+                f.write((line if ok else json.dumps({"e": "Garbled", "raw": line[:200]})) + "\n")
         f.write('{"e":"Exit","rc":%d}\n' % rc)
 
 
@@ -164,6 +172,7 @@ def equiv_batches(cat, chk):
         batch(mem, 0, "cross-class")
     # long and deep structures
     batch([(t, i) for t in cat.big_terms for i in range(len(t.routes))], 0, "long-deep")
+    batch([(t, i) for t in cat.wide_terms for i in range(len(t.routes))], 0, "wide")
     # cyclic data: every computation announced by Begin
     cyc = [(t, i) for t in cat.cyclic_terms for i in range(len(t.routes))] + [(t, 0) for t in cat.cyclic_contrast]
     lists = [m for m in cyc if m[0].cls == "pair" or m[0].nodes is None]
@@ -245,6 +254,7 @@ def equiv_phase(chk, build, sc, cat):
     shards = [s for s in shards if s]
     results = vlib.parallel(lambda a: run_equiv_shard(build, sc, cat, a[0] + 1, a[1]), list(enumerate(shards)), jobs=8)
     same_seen, bad_hash = set(), set()   # same-term (term, routeA, routeB) observed / rejected by the hash rule
+    stats = collections.Counter()
     findings = {}           # key -> dict
     nobs = naccepted_batches = 0
     distinct_pairs = set()
@@ -280,10 +290,6 @@ def equiv_phase(chk, build, sc, cat):
             findings.setdefault(key, dict(key=key, msg=msg, count=0, replay={"key": key, "kind": "equiv-structure", "event": ev, "before": evs[max(0, idx - 5):idx],
                                                                             "driver_exit": res["rc"], "stderr": res["stderr"], "tlc": r.summary()}))["count"] += 1
         # ---- rejected answers
-        if rej:
-            r2 = vlib.run_tlc("EquivTrace.tla", "EquivTrace.cfg", sc.path, env={"TRACE": res["trace"]}, workers=1, timeout=900, heap="3g")
-            if soft_rejects(r2) != rej:
-                raise Broken("EquivTrace is not deterministic on shard %d" % res["no"])
         rejected_batches = set()
         inst = {e["i"]: e for e in evs if e.get("e") == "Inst"}
         for rule, line in rej:
@@ -303,10 +309,10 @@ def equiv_phase(chk, build, sc, cat):
                 bad_hash.add((ta.id, ia, ib))
                 bad_hash.add((ta.id, ib, ia))
             f = findings.get(key)
-            if f is None:
+            size = len(rA.expr) + len(rB.expr) + (0 if ta.nodes is None else 1000)
+            if f is None or size < f["size"]:
                 repro = "(let ((a %s) (b %s)) (list (equal? a b) (eqv? a b) (hash a) (hash b)))" % (rA.expr, rB.expr)
-                mini = [dict(id=1, bg=0, members=[(ta, ia), (tb, ib)])]
-                f = findings[key] = dict(key=key, count=0, msg="%s rule of Equiv.tla rejected: A = %s via %s ; B = %s via %s ; recorded %s ; hashes %s / %s" % (
+                f = findings[key] = dict(key=key, count=f["count"] if f else 0, size=size, pair=(ta, ia, tb, ib), msg="%s rule of Equiv.tla rejected: A = %s via %s ; B = %s via %s ; recorded %s ; hashes %s / %s" % (
                     rule, describe(ta), rA.expr[:140], describe(tb), rB.expr[:140], {k: ev[k] for k in ("eq", "eqv", "equal", "pequal")},
                     inst[ev["a"]]["h"][:2], inst[ev["b"]]["h"][:2]),
                     replay={"key": key, "kind": "equiv", "rule": rule, "A": {"term": describe(ta), "route": rA.expr, "layout": rA.layout},
@@ -314,14 +320,23 @@ def equiv_phase(chk, build, sc, cat):
                             "recorded": {"obs": ev, "instA": inst[ev["a"]], "instB": inst[ev["b"]]}, "repro": repro,
                             "mini": mini_case(cat, ta, ia, tb, ib)})
             f["count"] += 1
+        if r.ok and not ra:
+            chk.cov.setdefault("clean_trace", []).append(res["trace"])
         # ---- accounting
         for b in res["batches"]:
             if b["id"] not in rejected_batches and not (ra or not r.ok):
                 naccepted_batches += 1
+        bgof = {b["id"]: b["bg"] for b in res["batches"]}
         for e in evs:
             if e.get("e") == "Obs":
                 nobs += 1
                 a, b_ = res["table"][e["a"]], res["table"][e["b"]]
+                stats["same-instance" if e["a"] == e["b"] else "same-value-different-route" if a[0] is b_[0] else "different-value"] += 1
+                stats["answered-equal" if e["equal"] else "answered-not-equal"] += 1
+                if bgof[a[2]]:
+                    stats["cyclic"] += 1
+                if e["equal"] and e["a"] != e["b"]:
+                    stats["hash-compared"] += 1
                 if e["a"] != e["b"]:
                     distinct_pairs.add((a[0].id, a[1], b_[0].id, b_[1]))
                     if a[0] is b_[0]:
@@ -332,6 +347,10 @@ def equiv_phase(chk, build, sc, cat):
                 a, b_ = res["table"][e["a"]], res["table"][e["b"]]
                 chk.sample({"kind": "observation", "A": a[0].routes[a[1]].expr[:100], "B": b_[0].routes[b_[1]].expr[:100], "same_abstract_value": a[0] is b_[0],
                             "recorded": {k: e[k] for k in ("eq", "eqv", "equal", "pequal")}})
+    chk.cov["equiv_observation_classes"] = dict(stats)
+    for k in ("same-value-different-route", "different-value", "same-instance", "answered-equal", "answered-not-equal", "cyclic", "hash-compared"):
+        if not stats.get(k):
+            raise Broken("vacuous: no observation of class %s" % k)
     chk.cov["equiv_batches"] = len(batches)
     chk.cov["equiv_batches_accepted"] = naccepted_batches
     chk.cov["equiv_observations"] = nobs
@@ -340,6 +359,30 @@ def equiv_phase(chk, build, sc, cat):
     chk.cov["equiv_routes"] = len(set((t.id, i) for b in batches for t, i in b["members"]))
     if nobs < 2000:
         raise Broken("only %d observations recorded" % nobs)
+    # every finding is confirmed on its two-instance case in a fresh interpreter process and a fresh TLC run
+    def confirm(f):
+        if "pair" not in f:
+            return True
+        case = f["replay"]["mini"]
+        tag = re.sub(r"[^A-Za-z0-9]+", "_", f["key"])[:60]
+        prog, outp, trace = sc.file("confirm_%s.scm" % tag), sc.file("confirm_%s.out" % tag), sc.file("confirm_%s.ndjson" % tag)
+        with open(prog, "w") as fh:
+            fh.write(EQUIV_IMPORT + read(os.path.join(SCM, "c15_equiv.scm")) + case["program"])
+        rc, err = run_chibi(build, prog, outp, 120)
+        assemble(trace, case["terms"], outp, rc)
+        r = vlib.run_tlc("EquivTrace.tla", "EquivTrace.cfg", sc.path, env={"TRACE": trace}, workers=1, timeout=300, heap="2g")
+        return f["replay"]["rule"] in [x[0] for x in soft_rejects(r)]
+    flist = list(findings.values())
+    for f, ok in zip(flist, vlib.parallel(confirm, flist, jobs=4)):
+        if not ok:
+            raise Broken("rejection %s is not reproducible on its two-instance case" % f["key"])
+    # what an incoherent hash does to a table: one small history per finding, judged by MapTrace
+    for f in findings.values():
+        if f["key"].startswith("hash:equal-") and "pair" in f:
+            c = consequence_probe(build, sc, cat, *f["pair"])
+            if c:
+                f["msg"] += " ; CONSEQUENCE: " + c["msg"]
+                f["replay"]["consequence_for_tables"] = c
     # routes usable as table keys: the first route of a term and every route whose hash coherence with it
     # was observed and accepted by TLC (the map property is stated as a consequence of coherence)
     good = {}
@@ -347,6 +390,24 @@ def equiv_phase(chk, build, sc, cat):
         if ra_ == 0 and (tid, 0, rb_) not in bad_hash:
             good.setdefault(tid, {0}).add(rb_)
     return findings, good, len(distinct_pairs), nobs, naccepted_batches
+
+
+def consequence_probe(build, sc, cat, ta, ia, tb, ib):
+    """Insert a key computed by one route into an equal? table and look it up by the other route."""
+    if ta is not tb or "key" not in ta.tags or ta.nan:
+        return None
+    hist = dict(no=9000 + ta.id, fe="69", cfg="equal-default", eqv="equal", insts=[(ta, ia), (tb, ib)],
+                ops=[("make", 1, "equal-default", "equal"), ("set", 1, 1, 11), ("refd", 1, 2), ("ex", 1, 2), ("set", 1, 2, 22), ("size", 1), ("refd", 1, 1)])
+    res = run_history(build, sc, cat, hist, "_probe")
+    r = res["r"]
+    ra = rejected_at(r)
+    m = re.search(r'<<"C15_MAP_REJECT", "([^"]+)", (\d+)>>', r.out)
+    if r.ok or not ra or not m:
+        return None
+    evs = vlib.read_ndjson(res["trace"])
+    ev = evs[ra[0] - 1]
+    return {"msg": "SRFI 69 equal? table: key set via route A, then %s via route B recorded %s -- rejected by Map.tla (%s)" % (ev["e"], json.dumps(ev), m.group(1)),
+            "history": [list(o) for o in hist["ops"]], "rejected_event": ev, "tag": m.group(1)}
 
 
 def mini_case(cat, ta, ia, tb, ib):
@@ -587,7 +648,7 @@ def map_phase(chk, build, sc, cat, good):
                 break
             cur = dict(cur, ops=ops2)
         return out
-    for runs in vlib.parallel(one, hists, jobs=8):
+    for runs in vlib.parallel(one, hists, jobs=10):
         for res in runs:
             r, hist = res["r"], res["hist"]
             evs = vlib.read_ndjson(res["trace"])
@@ -595,6 +656,7 @@ def map_phase(chk, build, sc, cat, good):
                 raise Broken("history %d uses a key outside the domain of its table" % hist["no"])
             if r.ok:
                 accepted += 1
+                chk.cov.setdefault("clean_map_trace", res["trace"])
                 nops_total += len(hist["ops"])
                 events_kinds.update(e.get("e") for e in evs)
                 sizes = [e.get("n", 0) for e in evs if "n" in e]
@@ -622,11 +684,11 @@ def map_phase(chk, build, sc, cat, good):
             if "k" in ev and isinstance(ev["k"], int) and 0 < ev["k"] <= len(hist["insts"]) and not tag.startswith(KEY_FREE_TAGS):
                 kterm, kri = hist["insts"][ev["k"] - 1]
                 key += ":%s-table:%s-key" % (hist["eqv"], kterm.kind)
-            r2 = vlib.run_tlc("MapTrace.tla", "MapTrace.cfg", sc.path, env={"TRACE": res["trace"]}, workers=1, timeout=600, heap="3g")
-            if rejected_at(r2) != ra:
-                raise Broken("MapTrace is not deterministic on history %d" % hist["no"])
             f = findings.get(key)
             if f is None:
+                r2 = vlib.run_tlc("MapTrace.tla", "MapTrace.cfg", sc.path, env={"TRACE": res["trace"]}, workers=1, timeout=600, heap="3g")
+                if rejected_at(r2) != ra:
+                    raise Broken("MapTrace is not deterministic on history %d" % hist["no"])
                 opsn = [e for e in evs if e.get("e") not in ("Term", "Inst")]
                 pos = idx - res["nterm"] - len(hist["insts"])
                 f = findings[key] = dict(key=key, count=0, msg="SRFI %s table %s: answer rejected by Map.tla (%s) at operation %d: %s%s (driver exit %s)" % (
@@ -643,7 +705,7 @@ def map_phase(chk, build, sc, cat, good):
     chk.cov["map_table_growths_in_accepted_histories"] = resizes
     need = {"Set", "Delete", "Ref", "RefThunk", "RefDefault", "Exists", "Update", "UpdateThunk", "UpdateDefault", "Size", "Keys", "Values", "Alist", "Walk", "Fold",
             "Copy", "Intern", "Pop", "Clear"}
-    if accepted and not need <= events_kinds:
+    if accepted and not findings and not need <= events_kinds:
         raise Broken("operation kinds never validated: %s" % sorted(need - events_kinds))
     return findings, accepted, nops_total
 
@@ -655,6 +717,71 @@ def minimal_history(hist, evs, idx, nterm):
 
 
 # =====================================================================================================
+def binding_self_test(sc, equiv_traces, map_trace):
+    """Soundness rule 5: a corrupted answer / a missing event in an otherwise accepted trace must be rejected."""
+    done = {}
+    target = None
+    for equiv_trace in equiv_traces:
+        lines = open(equiv_trace).read().splitlines()
+        evs = [json.loads(x) for x in lines]
+        inst = {}
+        for n, e in enumerate(evs):
+            if e["e"] == "Inst":
+                inst[e["i"]] = e
+            if e["e"] == "Obs" and e["a"] != e["b"] and e["equal"] == 1 and e["pequal"] == 1 and inst[e["a"]]["t"] == inst[e["b"]]["t"] and inst[e["a"]]["h"] == inst[e["b"]]["h"]:
+                target = n
+                break
+        if target is not None:
+            break
+    if target is None:
+        raise Broken("self test: no same-value observation in any trace")
+    # (a) flip equal? on a pair of equal values
+    bad = dict(evs[target], equal=0)
+    pa = sc.file("selftest_a.ndjson")
+    with open(pa, "w") as f:
+        f.write("\n".join(lines[:target] + [json.dumps(bad)] + lines[target + 1:]) + "\n")
+    r = vlib.run_tlc("EquivTrace.tla", "EquivTrace.cfg", sc.path, env={"TRACE": pa}, workers=1, timeout=600, heap="3g")
+    done["flipped-equal"] = ("equal", target + 1) in soft_rejects(r)
+    # (b) change one hash value of one of the two instances
+    ia = next(n for n, e in enumerate(evs) if e["e"] == "Inst" and e["i"] == evs[target]["a"])
+    bad = dict(evs[ia], h=[evs[ia]["h"][0] + "1"] + evs[ia]["h"][1:])
+    pb = sc.file("selftest_b.ndjson")
+    with open(pb, "w") as f:
+        f.write("\n".join(lines[:ia] + [json.dumps(bad)] + lines[ia + 1:]) + "\n")
+    r = vlib.run_tlc("EquivTrace.tla", "EquivTrace.cfg", sc.path, env={"TRACE": pb}, workers=1, timeout=600, heap="3g")
+    done["changed-hash"] = ("hash", target + 1) in soft_rejects(r)
+    # (c) remove the observation
+    pc = sc.file("selftest_c.ndjson")
+    with open(pc, "w") as f:
+        f.write("\n".join(lines[:target] + lines[target + 1:]) + "\n")
+    r = vlib.run_tlc("EquivTrace.tla", "EquivTrace.cfg", sc.path, env={"TRACE": pc}, workers=1, timeout=600, heap="3g")
+    done["removed-observation"] = rejected_at(r) is not None
+    # (d) change one answer of a table
+    lines = open(map_trace).read().splitlines()
+    evs = [json.loads(x) for x in lines]
+    target = next((n for n, e in enumerate(evs) if e["e"] in ("RefDefault", "RefThunk") and e["res"] >= 0), None)
+    if target is None:
+        raise Broken("self test: no successful lookup in the map trace")
+    bad = dict(evs[target], res=(evs[target]["res"] + 1) % 1000)
+    pd = sc.file("selftest_d.ndjson")
+    with open(pd, "w") as f:
+        f.write("\n".join(lines[:target] + [json.dumps(bad)] + lines[target + 1:]) + "\n")
+    r = vlib.run_tlc("MapTrace.tla", "MapTrace.cfg", sc.path, env={"TRACE": pd}, workers=1, timeout=600, heap="3g")
+    ra = rejected_at(r)
+    done["changed-table-answer"] = bool(ra and ra[0] == target + 1 and "C15_MAP_REJECT" in r.out)
+    # (e) drop a Set event: the table is then larger than the map says
+    target = next(n for n, e in enumerate(evs) if e["e"] == "Set")
+    pe = sc.file("selftest_e.ndjson")
+    with open(pe, "w") as f:
+        f.write("\n".join(lines[:target] + lines[target + 1:]) + "\n")
+    r = vlib.run_tlc("MapTrace.tla", "MapTrace.cfg", sc.path, env={"TRACE": pe}, workers=1, timeout=600, heap="3g")
+    done["removed-set-event"] = rejected_at(r) is not None
+    failed = [k for k, v in done.items() if not v]
+    if failed:
+        raise Broken("binding self test: corrupted traces were accepted: %s" % failed)
+    return sorted(done)
+
+
 def model_checking(chk, sc, out):
     try:
         r = vlib.run_tlc("Map.tla", "MapMC.cfg", sc.path, workers=4, coverage=True, timeout=600, heap="3g")
@@ -679,6 +806,16 @@ def run():
         t2 = time.time()
         mfind, nhist, nops = map_phase(chk, build, sc, cat, good)
         t3 = time.time()
+        et, mt = chk.cov.pop("clean_trace", None), chk.cov.pop("clean_map_trace", None)
+        if et and mt:
+            try:
+                chk.cov["binding_self_test"] = binding_self_test(sc, et, mt)
+            except Broken as e:
+                if not (efind or mfind):
+                    raise
+                chk.cov["binding_self_test"] = "not completed on a run with rejections: %s" % e
+        else:
+            chk.cov["binding_self_test"] = "skipped: no structurally accepted trace in this run"
         th.join()
         chk.cov["phase_seconds"] = {"build": round(t1 - chk.t0, 1), "equiv": round(t2 - t1, 1), "map": round(t3 - t2, 1), "wait_for_mc": round(time.time() - t3, 1)}
         if "exc" in mc:
